@@ -143,6 +143,7 @@ theorem SRel.allocClosureLeft (c : Closure N) : SRel Q β (σ.allocClosure c).2 
 theorem SRel.allocClosureRight (c : Closure N) : SRel Q β σ (σ'.allocClosure c).2 :=
   { h with
     front := by front_tac h
+    pinR := fun p hp => ⟨getElem?_append_of_some (h.pinR p hp).1 _, (h.pinR p hp).2⟩
     clo := fun hxy =>
       let ⟨w, w', h1, h2, hw⟩ := h.clo hxy
       ⟨w, w', h1, getElem?_append_of_some h2 _, hw⟩ }
@@ -161,13 +162,13 @@ theorem front_refl (β : Inj) :
 /-- the new pair must lie at or beyond the frontier -/
 theorem le_extC {a b : Nat} (ha : β.cL ≤ a) (hb : β.cR ≤ b) : β.le (extC β a b) :=
   ⟨fun _ _ h => .inl h, fun _ _ h => h, fun _ _ h => h, front_refl β,
-    fun _ _ h => h.elim .inl fun e => .inr ⟨e.1 ▸ ha, e.2 ▸ hb⟩, fun _ _ h => .inl h, fun _ _ h => .inl h, fun _ h => h⟩
+    fun _ _ h => h.elim .inl fun e => .inr ⟨e.1 ▸ ha, e.2 ▸ hb⟩, fun _ _ h => .inl h, fun _ _ h => .inl h, fun _ h => h, fun _ h => h⟩
 theorem le_extT {a b : Nat} (ha : β.tL ≤ a) (hb : β.tR ≤ b) : β.le (extT β a b) :=
   ⟨fun _ _ h => h, fun _ _ h => .inl h, fun _ _ h => h, front_refl β,
-    fun _ _ h => .inl h, fun _ _ h => h.elim .inl fun e => .inr ⟨e.1 ▸ ha, e.2 ▸ hb⟩, fun _ _ h => .inl h, fun _ h => h⟩
+    fun _ _ h => .inl h, fun _ _ h => h.elim .inl fun e => .inr ⟨e.1 ▸ ha, e.2 ▸ hb⟩, fun _ _ h => .inl h, fun _ h => h, fun _ h => h⟩
 theorem le_extF {a b : Nat} (ha : β.fL ≤ a) (hb : β.fR ≤ b) : β.le (extF β a b) :=
   ⟨fun _ _ h => h, fun _ _ h => h, fun _ _ h => .inl h, front_refl β,
-    fun _ _ h => .inl h, fun _ _ h => .inl h, fun _ _ h => h.elim .inl fun e => .inr ⟨e.1 ▸ ha, e.2 ▸ hb⟩, fun _ h => h⟩
+    fun _ _ h => .inl h, fun _ _ h => .inl h, fun _ _ h => h.elim .inl fun e => .inr ⟨e.1 ▸ ha, e.2 ▸ hb⟩, fun _ h => h, fun _ h => h⟩
 
 theorem SRel.le_extC {σ σ' : State N} (h : SRel Q β σ σ') : β.le (extC β σ.cells.length σ'.cells.length) :=
   HeapV.le_extC h.front.cL h.front.cR
@@ -210,6 +211,7 @@ theorem SRel.allocCell (h : SRel Q β σ σ') {v v' : Val N} (hv : VRel β v v')
   strlib := h.strlib
   front := by front_tac h
   pin := h.pin
+  pinR := h.pinR
 
 theorem SRel.allocTable (h : SRel Q β σ σ') {t t' : Table N} (ht : TRel β t t') :
     SRel Q (extT β σ.tables.length σ'.tables.length) (σ.allocTable t).2 (σ'.allocTable t').2 where
@@ -234,6 +236,7 @@ theorem SRel.allocTable (h : SRel Q β σ σ') {t t' : Table N} (ht : TRel β t 
   strlib := .inl h.strlib
   front := by front_tac h
   pin := h.pin
+  pinR := h.pinR
 
 theorem SRel.allocClosure (h : SRel Q β σ σ') {c c' : Closure N} (hc : CRel Q β c c') :
     SRel Q (extF β σ.closures.length σ'.closures.length) (σ.allocClosure c).2 (σ'.allocClosure c').2 where
@@ -259,6 +262,8 @@ theorem SRel.allocClosure (h : SRel Q β σ σ') {c c' : Closure N} (hc : CRel Q
   front := by front_tac h
   pin := fun p hp => ⟨getElem?_append_of_some (h.pin p hp).1 _, fun b hb =>
     hb.elim ((h.pin p hp).2 b) fun e => by have := getElem?_lt (h.pin p hp).1; omega⟩
+  pinR := fun p hp => ⟨getElem?_append_of_some (h.pinR p hp).1 _, fun a ha =>
+    ha.elim ((h.pinR p hp).2 a) fun e => by have := getElem?_lt (h.pinR p hp).1; omega⟩
 
 /-- `bindLocals` on both sides with related values -/
 theorem SRel.bindLocals (h : SRel Q β σ σ') {D : List DName} (ns : List String) {vs vs' : List (Val N)}
@@ -304,7 +309,7 @@ def Inj.bump (β : Inj) (σ σ' : State N) : Inj :=
 theorem SRel.le_bump (h : SRel Q β σ σ') : β.le (β.bump σ σ') :=
   ⟨fun _ _ h => h, fun _ _ h => h, fun _ _ h => h,
     ⟨h.front.cL, h.front.cR, h.front.tL, h.front.tR, h.front.fL, h.front.fR⟩,
-    fun _ _ h => .inl h, fun _ _ h => .inl h, fun _ _ h => .inl h, fun _ h => h⟩
+    fun _ _ h => .inl h, fun _ _ h => .inl h, fun _ _ h => .inl h, fun _ h => h, fun _ h => h⟩
 
 theorem SRel.bump (h : SRel Q β σ σ') : SRel Q (β.bump σ σ') σ σ' where
   globals := lift_globals h.le_bump h.globals
@@ -318,6 +323,7 @@ theorem SRel.bump (h : SRel Q β σ σ') : SRel Q (β.bump σ σ') σ σ' where
   strlib := h.strlib
   front := ⟨Nat.le_refl _, Nat.le_refl _, Nat.le_refl _, Nat.le_refl _, Nat.le_refl _, Nat.le_refl _⟩
   pin := h.pin
+  pinR := h.pinR
 
 /-- ids that do not exist (yet) are related to nothing -/
 theorem SRel.unrelatedFL (h : SRel Q β σ σ') {a : Nat} (ha : σ.closures.length ≤ a) : ∀ b, ¬ β.f a b := fun b hab => by
@@ -348,7 +354,7 @@ def Inj.pinNew (β : Inj) (a : Nat) (body : FnBody) (env : List (String × Nat))
 
 theorem le_pinNew (a : Nat) (body : FnBody) (env : List (String × Nat)) : β.le (β.pinNew a body env) :=
   ⟨fun _ _ h => h, fun _ _ h => h, fun _ _ h => h, front_refl β, fun _ _ h => .inl h, fun _ _ h => .inl h,
-    fun _ _ h => .inl h, fun _ h => List.mem_cons_of_mem _ h⟩
+    fun _ _ h => .inl h, fun _ h => List.mem_cons_of_mem _ h, fun _ h => h⟩
 
 /-- **the left allocates a closure EARLY**: it is pinned (content known, related to nothing) until the right
 allocates its partner (`SRel.matchClosureRight`) -/
@@ -370,7 +376,8 @@ theorem SRel.allocClosureLeftPinned (h : SRel Q β σ σ') (body : FnBody) (env 
     pin := fun p hp => by
       rcases List.mem_cons.mp hp with rfl | hp
       · exact ⟨by simp [State.allocClosure], h.unrelatedFL (Nat.le_refl _)⟩
-      · exact h1.pin p hp }
+      · exact h1.pin p hp
+    pinR := h1.pinR }
 
 /-- relate the pinned left closure `a` with the closure the right allocates now; the pin is released -/
 def Inj.matchF (β : Inj) (a b : Nat) : Inj :=
@@ -412,7 +419,11 @@ theorem SRel.matchClosureRight (h : SRel Q β σ σ') {a : Nat} {body : FnBody} 
       refine ⟨(h.pin p hp'.1).1, fun b hb => ?_⟩
       rcases hb with hb | ⟨e, _⟩
       · exact (h.pin p hp'.1).2 b hb
-      · have := hp'.2; simp only [bne_iff_ne, ne_eq] at this; exact this e }
+      · have := hp'.2; simp only [bne_iff_ne, ne_eq] at this; exact this e
+    pinR := fun p hp => ⟨getElem?_append_of_some (h.pinR p hp).1 _, fun x hx => by
+      rcases hx with hx | ⟨_, e⟩
+      · exact (h.pinR p hp).2 x hx
+      · have := getElem?_lt (h.pinR p hp).1; omega⟩ }
 
 /-- the late pair is fresh for every relation `β0` whose frontier it respects and that does not pin `a` -/
 theorem le_late {β0 β1 : Inj} (h : β0.le β1) {a b : Nat} (ha : β0.fL ≤ a) (hb : β0.fR ≤ b)
@@ -421,6 +432,93 @@ theorem le_late {β0 β1 : Inj} (h : β0.le β1) {a b : Nat} (ha : β0.fL ≤ a)
     rcases hf with hf | ⟨rfl, rfl⟩
     · exact h.freshF x y hf
     · exact .inr ⟨ha, hb⟩,
-    fun p hp0 => List.mem_filter.mpr ⟨h.pins p hp0, by simp only [bne_iff_ne, ne_eq]; exact hp p hp0⟩⟩
+    fun p hp0 => List.mem_filter.mpr ⟨h.pins p hp0, by simp only [bne_iff_ne, ne_eq]; exact hp p hp0⟩, h.pinsR⟩
+
+/-! ### the symmetric case: the RIGHT allocates a closure early (or owns a helper closure for good) -/
+
+def Inj.pinNewR (β : Inj) (b : Nat) (body : FnBody) (env : List (String × Nat)) : Inj :=
+  { β with pinFR := (b, body, env) :: β.pinFR }
+
+theorem le_pinNewR (b : Nat) (body : FnBody) (env : List (String × Nat)) : β.le (β.pinNewR b body env) :=
+  ⟨fun _ _ h => h, fun _ _ h => h, fun _ _ h => h, front_refl β, fun _ _ h => .inl h, fun _ _ h => .inl h,
+    fun _ _ h => .inl h, fun _ h => h, fun _ h => List.mem_cons_of_mem _ h⟩
+
+theorem SRel.allocClosureRightPinned (h : SRel Q β σ σ') (body : FnBody) (env : List (String × Nat)) :
+    SRel Q (β.pinNewR σ'.closures.length body env) σ (σ'.allocClosure ⟨body, env, []⟩).2 := by
+  have hle := le_pinNewR (β := β) σ'.closures.length body env
+  have h1 := h.allocClosureRight ⟨body, env, []⟩
+  exact {
+    globals := lift_globals hle h1.globals
+    trace := h1.trace
+    injC := h.injC
+    injT := h.injT
+    injF := h.injF
+    cell := fun hab => let ⟨v, v', e1, e2, hv⟩ := h1.cell hab; ⟨v, v', e1, e2, hv.mono hle⟩
+    tbl := fun hab => let ⟨v, v', e1, e2, hv⟩ := h1.tbl hab; ⟨v, v', e1, e2, hv.mono hle⟩
+    clo := fun hab => let ⟨v, v', e1, e2, hv⟩ := h1.clo hab; ⟨v, v', e1, e2, hv.mono hle⟩
+    strlib := h.strlib
+    front := ⟨h1.front.cL, h1.front.cR, h1.front.tL, h1.front.tR, h1.front.fL, h1.front.fR⟩
+    pin := h1.pin
+    pinR := fun p hp => by
+      rcases List.mem_cons.mp hp with rfl | hp
+      · exact ⟨by simp [State.allocClosure], h.unrelatedFR (Nat.le_refl _)⟩
+      · exact h1.pinR p hp }
+
+/-- a pinned right closure holds its content, whatever related code has run since -/
+theorem SRel.pinnedR (h : SRel Q β σ σ') {b : Nat} {body : FnBody} {env : List (String × Nat)}
+    (hp : (b, body, env) ∈ β.pinFR) : σ'.closures[b]? = some ⟨body, env, []⟩ := (h.pinR _ hp).1
+theorem SRel.pinnedL (h : SRel Q β σ σ') {a : Nat} {body : FnBody} {env : List (String × Nat)}
+    (hp : (a, body, env) ∈ β.pinF) : σ.closures[a]? = some ⟨body, env, []⟩ := (h.pin _ hp).1
+
+/-- relate the closure the left allocates now with the pinned right closure `b`; the pin is released -/
+def Inj.matchFL (β : Inj) (a b : Nat) : Inj :=
+  { β with f := fun x y => β.f x y ∨ (x = a ∧ y = b), pinFR := β.pinFR.filter (fun p => p.1 != b) }
+
+theorem SRel.matchClosureLeft (h : SRel Q β σ σ') {b : Nat} {body : FnBody} {env : List (String × Nat)}
+    (hp : (b, body, env) ∈ β.pinFR) {c : Closure N} (hc : CRel Q β c ⟨body, env, []⟩) :
+    SRel Q (β.matchFL σ.closures.length b) (σ.allocClosure c).2 σ' := by
+  have hb := (h.pinR _ hp).1
+  have hu := (h.pinR _ hp).2
+  have hle : ∀ {v v' : Val N}, VRel β v v' → VRel (β.matchFL σ.closures.length b) v v' := by
+    intro v v' hv
+    cases v <;> cases v' <;> simp only [VRel] at hv ⊢ <;> first | exact hv | exact .inl hv
+  have hleT : ∀ {t t' : Table N}, TRel β t t' → TRel (β.matchFL σ.closures.length b) t t' := fun ht =>
+    ⟨Forall2.imp (fun _ _ he => ⟨hle he.1, hle he.2⟩) ht.entries, ht.mt⟩
+  have hleC : ∀ {d d' : Closure N}, CRel Q β d d' → CRel Q (β.matchFL σ.closures.length b) d d' := fun hd =>
+    ⟨Forall2.imp (fun _ _ => hle) hd.varargs, hd.body⟩
+  exact {
+    globals := Forall2.imp (fun _ _ hp => ⟨hp.1, hle hp.2⟩) h.globals
+    trace := h.trace
+    injC := h.injC
+    injT := h.injT
+    injF := injective_ext' h.injF (h.unrelatedFL (Nat.le_refl _)) hu
+    cell := fun hab => let ⟨v, v', h1, h2, hv⟩ := h.cell hab; ⟨v, v', h1, h2, hle hv⟩
+    tbl := fun hab => let ⟨v, v', h1, h2, hv⟩ := h.tbl hab; ⟨v, v', h1, h2, hleT hv⟩
+    clo := fun {x y} hab => by
+      simp only [State.allocClosure]
+      rcases hab with hab | ⟨rfl, rfl⟩
+      · obtain ⟨w, w', h1, h2, hw⟩ := h.clo hab
+        exact ⟨w, w', getElem?_append_of_some h1 _, h2, hleC hw⟩
+      · exact ⟨c, _, by simp, hb, hleC hc⟩
+    strlib := h.strlib
+    front := by front_tac h
+    pin := fun p hp => ⟨getElem?_append_of_some (h.pin p hp).1 _, fun y hy => by
+      rcases hy with hy | ⟨e, _⟩
+      · exact (h.pin p hp).2 y hy
+      · have := getElem?_lt (h.pin p hp).1; omega⟩
+    pinR := fun p hp => by
+      have hp' := List.mem_filter.mp hp
+      refine ⟨(h.pinR p hp'.1).1, fun a ha => ?_⟩
+      rcases ha with ha | ⟨_, e⟩
+      · exact (h.pinR p hp'.1).2 a ha
+      · have := hp'.2; simp only [bne_iff_ne, ne_eq] at this; exact this e }
+
+theorem le_lateL {β0 β1 : Inj} (h : β0.le β1) {a b : Nat} (ha : β0.fL ≤ a) (hb : β0.fR ≤ b)
+    (hp : ∀ p ∈ β0.pinFR, p.1 ≠ b) : β0.le (β1.matchFL a b) :=
+  ⟨h.c, h.t, fun _ _ hf => .inl (h.f _ _ hf), h.front, h.freshC, h.freshT, fun x y hf => by
+    rcases hf with hf | ⟨rfl, rfl⟩
+    · exact h.freshF x y hf
+    · exact .inr ⟨ha, hb⟩,
+    h.pins, fun p hp0 => List.mem_filter.mpr ⟨h.pinsR p hp0, by simp only [bne_iff_ne, ne_eq]; exact hp p hp0⟩⟩
 
 end DarkluaModel.Sem.HeapV
